@@ -11,6 +11,7 @@ fail=0; n=0
 run() { # id property patch reverse
   local id=$1 prop=$2 patch=$3 rev=$4
   if [ -n "$WANT" ] && ! echo " $WANT " | grep -q " $prop "; then return; fi
+  if [ -n "$SELFTEST_ONLY" ] && ! echo " $SELFTEST_ONLY " | grep -q " $id "; then return; fi
   local W; W=$(mktemp -d /tmp/govc-selftest-XXXXXX); rmdir "$W"
   git -C /repo worktree add --detach -q "$W" HEAD || { echo "SELFTEST-ERROR $id: cannot create worktree"; fail=1; return; }
   if ! (cd "$W" && git apply $rev "$patch" 2>/dev/null); then
